@@ -68,6 +68,11 @@ type GenPkg struct {
 	GenOut   string // outcome of the generate call (ok | panic:... | fatal...)
 	BuildErr string
 	Cell     *schema.Cell
+	// separate-mode import sets: the schema text lives in <module>/<Name>/schema.bop and is
+	// generated from that path; CtxS is the schema with the imported definitions merged in
+	// (what the reference codec needs), S holds this package's own definitions.
+	Separate bool
+	CtxS     *schema.Schema
 }
 
 func (p *GenPkg) OK() bool {
@@ -88,11 +93,16 @@ func expose(name string, private bool) string {
 }
 
 // generateAll runs the real ReadFile+Generate for every package (in feworker children).
-func generateAll(bin string, pkgs []*GenPkg) {
+func generateAll(bin string, pkgs []*GenPkg, mods ...*modDir) {
 	core.Pool(nproc(), func(int) *core.Child { return feChild(bin) }, len(pkgs), func(i int) any {
 		p := pkgs[i]
 		if p.Text == "" {
 			p.Text = schema.Print(p.S, schema.Layouts[0])
+		}
+		if p.Separate && len(mods) > 0 {
+			st := p.Opts.settings(p.Name)
+			st["combined"] = false
+			return map[string]any{"op": "gen", "path": filepath.Join(mods[0].dir, p.Name, "schema.bop"), "settings": st}
 		}
 		return map[string]any{"op": "gen", "text": hex.EncodeToString([]byte(p.Text)), "settings": p.Opts.settings(p.Name)}
 	}, func(i int, ch *core.Child, res core.Result) {
@@ -346,4 +356,69 @@ func (m *modDir) buildDriver(pkgs []*GenPkg, out string, flags ...string) (strin
 		return "", fmt.Errorf("driver build failed: %v\n%s", err, core.Short(string(b), 3000))
 	}
 	return bin, nil
+}
+
+
+// importSets builds separate-mode import sets: one library package and application
+// packages that use its enum, struct, message and union in the given shapes. Names start at
+// n0+1; the files are written into the module so that Generate can resolve the imports.
+func importSets(m *modDir, prefix string, n0 int, appOpts []Opts) []*GenPkg {
+	var out []*GenPkg
+	n := n0
+	fd := func(name string, t schema.Type) schema.Field { return schema.Field{Name: name, Type: t} }
+	mfd := func(i int, name string, t schema.Type) schema.Field { return schema.Field{Name: name, Type: t, Index: i} }
+	libDefs := func() []*schema.Def {
+		return []*schema.Def{
+			{Kind: "enum", Name: "LibKind", Base: "uint16", Options: []schema.Option{{Name: "OptA", Lit: "1"}, {Name: "OptB", Lit: "513"}}},
+			{Kind: "enum", Name: "LibWide", Base: "int64", Options: []schema.Option{{Name: "OptA", Lit: "-5"}, {Name: "OptB", Lit: "4294967296"}}},
+			{Kind: "struct", Name: "LibPoint", Fields: []schema.Field{fd("x", schema.Simple("int32")), fd("label", schema.Simple("string"))}},
+			{Kind: "message", Name: "LibMsg", Fields: []schema.Field{mfd(1, "a", schema.Simple("int64")), mfd(2, "k", schema.Simple("LibKind"))}},
+			{Kind: "union", Name: "LibUnion", Branches: []schema.Branch{
+				{Index: 1, Def: &schema.Def{Kind: "struct", Name: "LibUa", Fields: []schema.Field{fd("p", schema.Simple("LibPoint"))}}},
+				{Index: 2, Def: &schema.Def{Kind: "message", Name: "LibUb", Fields: []schema.Field{mfd(1, "s", schema.Simple("string"))}}}}},
+		}
+	}
+	tail := fd("tail", schema.Simple("int32"))
+	apps := []struct {
+		name string
+		defs []*schema.Def
+	}{
+		{"bare", []*schema.Def{{Kind: "struct", Name: "AppBare", Fields: []schema.Field{fd("lead", schema.Simple("byte")), fd("e", schema.Simple("LibKind")), fd("w", schema.Simple("LibWide")),
+			fd("s", schema.Simple("LibPoint")), fd("m", schema.Simple("LibMsg")), fd("u", schema.Simple("LibUnion")), tail}}}},
+		{"enum-last", []*schema.Def{{Kind: "struct", Name: "AppEnumLast", Fields: []schema.Field{fd("lead", schema.Simple("byte")), fd("e", schema.Simple("LibWide"))}},
+			{Kind: "message", Name: "AppEnumMsg", Fields: []schema.Field{mfd(1, "e", schema.Simple("LibKind")), mfd(2, "w", schema.Simple("LibWide"))}}}},
+		{"arrays", []*schema.Def{{Kind: "struct", Name: "AppArr", Fields: []schema.Field{fd("es", schema.ArrayOf(schema.Simple("LibKind"))), fd("ss", schema.ArrayOf(schema.Simple("LibPoint"))),
+			fd("ms", schema.ArrayOf(schema.Simple("LibMsg"))), fd("us", schema.ArrayOf(schema.Simple("LibUnion"))), tail}}}},
+		{"maps", []*schema.Def{{Kind: "struct", Name: "AppMap", Fields: []schema.Field{fd("me", schema.MapOf("string", schema.Simple("LibKind"))), fd("ms", schema.MapOf("string", schema.Simple("LibPoint"))),
+			fd("mm", schema.MapOf("uint8", schema.ArrayOf(schema.Simple("LibMsg")))), tail}}}},
+		{"message", []*schema.Def{{Kind: "message", Name: "AppMsg", Fields: []schema.Field{mfd(1, "e", schema.Simple("LibKind")), mfd(2, "s", schema.Simple("LibPoint")), mfd(3, "ss", schema.ArrayOf(schema.Simple("LibPoint"))),
+			mfd(4, "mu", schema.MapOf("string", schema.Simple("LibUnion"))), mfd(5, "tail", schema.Simple("int32"))}}}},
+		{"union", []*schema.Def{{Kind: "union", Name: "AppUnion", Branches: []schema.Branch{
+			{Index: 1, Def: &schema.Def{Kind: "struct", Name: "AppUa", Fields: []schema.Field{fd("s", schema.Simple("LibPoint")), fd("e", schema.Simple("LibKind"))}}},
+			{Index: 2, Def: &schema.Def{Kind: "message", Name: "AppUb", Fields: []schema.Field{mfd(1, "m", schema.Simple("LibMsg"))}}}}}}},
+	}
+	for _, o := range appOpts {
+		n++
+		libName := fmt.Sprintf("%s%04d", prefix, n)
+		lib := &schema.Schema{Defs: append([]*schema.Def{{Kind: "const", Name: "go_package", CType: "string", Lit: fmt.Sprintf("%q", "vgen/"+libName)}}, libDefs()...)}
+		lp := &GenPkg{Name: libName, Label: "imports/lib", S: lib, CtxS: lib, Opts: Opts{Unsafe: o.Unsafe}, Separate: true}
+		lp.Text = schema.Print(lib, schema.Layouts[0])
+		out = append(out, lp)
+		for _, a := range apps {
+			n++
+			name := fmt.Sprintf("%s%04d", prefix, n)
+			own := &schema.Schema{Defs: append([]*schema.Def{{Kind: "import", Path: "../" + libName + "/schema.bop"},
+				{Kind: "const", Name: "go_package", CType: "string", Lit: fmt.Sprintf("%q", "vgen/"+name)}}, a.defs...)}
+			merged := &schema.Schema{Defs: append(append([]*schema.Def{}, libDefs()...), a.defs...)}
+			ap := &GenPkg{Name: name, Label: "imports/app-" + a.name, S: &schema.Schema{Defs: a.defs}, CtxS: merged, Opts: o, Separate: true}
+			ap.Text = schema.Print(own, schema.Layouts[0])
+			out = append(out, ap)
+		}
+	}
+	for _, p := range out {
+		d := filepath.Join(m.dir, p.Name)
+		os.MkdirAll(d, 0o755)
+		os.WriteFile(filepath.Join(d, "schema.bop"), []byte(p.Text), 0o644)
+	}
+	return out
 }
